@@ -15,16 +15,20 @@ import (
 	"github.com/openGemini/openGemini/engine/index/tsi"
 	"github.com/openGemini/openGemini/lib/config"
 	"github.com/openGemini/openGemini/lib/index"
+	"github.com/openGemini/openGemini/lib/logger"
 	"github.com/openGemini/openGemini/lib/util/lifted/influx/influxql"
 	"github.com/openGemini/openGemini/lib/util/lifted/influx/meta"
 	"github.com/openGemini/openGemini/lib/util/lifted/influx/query"
 	"github.com/openGemini/openGemini/lib/util/lifted/vm/protoparser/influx"
 	"github.com/savsgio/dictpool"
+	"go.uber.org/zap"
 )
 
 var delTR = tsi.TimeRange{Min: 0, Max: 1000}
 
 func initProcess() {
+	// the repository logs every index operation to ~/.openGemini/logs: keep the harness quiet
+	logger.SetLogger(zap.NewNop())
 	_ = flag.Set("loggerLevel", "ERROR")
 	if !flag.Parsed() {
 		_ = flag.CommandLine.Parse([]string{})
